@@ -170,6 +170,8 @@ theorem precountKeys_eq {α} (ex : α → Bool) (keys : List α) : precountKeys 
   · rfl
   · split <;> rfl
 @[simp] theorem allQ_none : (MaskOpt.none).allQ = true := rfl
+@[simp] theorem lenShortcut_none (T : Tpl) : lenShortcut T .none = true := by simp [lenShortcut, isBlackQ]
+@[simp] theorem reqMask_none (T : Tpl) (b : Bool) : reqMask T (.none, b) = .none := by unfold reqMask; split <;> rfl
 @[simp] theorem childMask_noOwn (O : Opts) (fm : MaskOpt) : childMask O none fm = fm := by
   unfold childMask; split <;> rfl
 @[simp] theorem Env.get_nil (j : Nat) : Env.get [] j = none := rfl
@@ -261,11 +263,11 @@ theorem toM_nil (P : Prog) (T : Tpl) (O : Opts) (cfg : Sites) (v : GoVal) :
   | list xs =>
     cases ty <;> try (simp only [toM, toW]; exact scalar_case _ _)
     · rename_i e
-      simp only [toM, toW, allQ_none, if_true, toMList_nil P T O cfg xs e 0]
+      simp only [toM, toW, lenShortcut_none, if_true, toMList_nil P T O cfg xs e 0]
       cases h : toWList P e xs <;> simp [Res.map, bind, embed]
       exact (toWList_length P e xs _ h).symm
     · rename_i e
-      simp only [toM, toW, allQ_none, if_true, toMList_nil P T O cfg xs e 0]
+      simp only [toM, toW, lenShortcut_none, if_true, toMList_nil P T O cfg xs e 0]
       split
       · rfl
       · cases h : toWList P e xs <;> simp [Res.map, bind, embed]
@@ -273,7 +275,7 @@ theorem toM_nil (P : Prog) (T : Tpl) (O : Opts) (cfg : Sites) (v : GoVal) :
   | map kvs =>
     cases ty <;> try (simp only [toM, toW]; exact scalar_case _ _)
     rename_i k w
-    simp only [toM, toW, allQ_none, toMPairs_nil P T O cfg kvs k w]
+    simp only [toM, toW, lenShortcut_none, if_true, qInt_none, Bool.or_true, ite_self, toMPairs_nil P T O cfg kvs k w]
     cases h : toWPairs P k w kvs <;> simp [Res.map, bind, embed]
     exact (toWPairs_length P k w kvs _ h).symm
   | strct fs =>
@@ -329,7 +331,7 @@ theorem toMFields_nil (P : Prog) (T : Tpl) (O : Opts) (cfg : Sites) (vs : List G
     cases defs with
     | nil => simp [toMFields, toWFields, Res.map]
     | cons f fs =>
-      simp only [toMFields, toWFields, qField_none, Env.get_nil, childMask_noOwn, ite_self]
+      simp only [toMFields, toWFields, qField_none, Env.get_nil, childMask_noOwn, reqMask_none, ite_self]
       split
       · exact toMFields_nil P T O cfg r fs (j + 1)
       · have key : (do
@@ -587,11 +589,13 @@ theorem zeroM_toW (ty : Ty) : ∃ w, (zeroM ty).toW? = some w := by
 
 /-- the announced count of a list/set under the repaired pre-count loop and an honest `All()` -/
 theorem count_ok (T : Tpl) (cfg : Sites) (fm : MaskOpt) (n : Nat) (hT : T.preMut = false) (hc : Coh cfg fm) :
-    (if fm.allQ then n else precountList T (fun i => (qInt cfg fm (Int.ofNat i)).2) n) =
+    (if lenShortcut T fm then n else precountList T (fun i => (qInt cfg fm (Int.ofNat i)).2) n) =
       cnt (fun i => (qInt cfg fm (Int.ofNat i)).2) 0 n := by
   split
   · rename_i ha
-    have := (hc ha).1
+    have ha' : fm.allQ = true := by
+      simp only [lenShortcut, Bool.and_eq_true] at ha; exact ha.1
+    have := (hc ha').1
     rw [cnt_all]
     intro j _ _
     exact this _
@@ -650,21 +654,25 @@ theorem toM_wf (P : Prog) (T : Tpl) (O : Opts) (cfg : Sites) (hT : T.preMut = fa
       · cases k <;> simp [isIntKey] at h <;> rfl
       · cases k <;> simp [isStrKey] at h <;> rfl) hk.2 h1
     refine ⟨.map k.ttype w.ttype wl, ?_⟩
-    have hc : (if ((isIntKey k || isStrKey k) && !fm.allQ) = true then precountKeys (fun a => (keyQ cfg k fm a).2) (kvs.map Prod.fst) else kvs.length) = ws.length := by
+    have hc : (if (isIntKey k || isStrKey k) = true then
+          (if lenShortcut T fm = true then kvs.length else precountKeys (fun a => (keyQ cfg k fm a).2) (kvs.map Prod.fst))
+        else if (T.blackAll || (qInt cfg fm 0).2) = true then kvs.length else 0) = ws.length := by
       rw [hlen]
+      simp only [hk.1, if_true]
       split
-      · rw [precountKeys_eq, filter_map_fst_length]
       · rename_i hn
-        simp only [hk.1, Bool.true_and, Bool.not_eq_true', Bool.not_eq_false] at hn
+        have hn' : fm.allQ = true := by
+          simp only [lenShortcut, Bool.and_eq_true] at hn; exact hn.1
         have hall : ∀ a, (keyQ cfg k fm a).2 = true := by
           intro a
-          have := hg.coh (by simpa using hn)
+          have := hg.coh hn'
           unfold keyQ; split
           · exact this.1 _
           · split
             · exact this.2 _
             · exact this.1 _
         exact (filter_all_length (fun q : GoVal × GoVal => (keyQ cfg k fm q.1).2) kvs (fun q => hall q.1)).symm
+      · rw [precountKeys_eq, filter_map_fst_length]
     simp only [MW.toW?, hc, if_true, hwl, Option.map]
   | strct fs =>
     cases ty <;> try (simp only [toM] at h; exact scalar _ _ h)
@@ -764,10 +772,13 @@ theorem toMFields_wf (P : Prog) (T : Tpl) (O : Opts) (cfg : Sites) (hT : T.preMu
         · simp only [Res.bind_eq_ok] at h
           obtain ⟨q, hq, w, h1, ws', h2, h3⟩ := h
           cases h3
-          have hgq : Good cfg q.1 := by
-            split at hq
-            · cases hq; exact good_none cfg
-            · exact hg.field f.id (b := q.2) hq
+          have hgq : Good cfg (reqMask T q) := by
+            unfold reqMask
+            split
+            · split at hq
+              · cases hq; exact good_none cfg
+              · exact hg.field f.id (b := q.2) hq
+            · exact good_none cfg
           obtain ⟨w0, hw0⟩ := toM_wf P T O cfg hT hP v _ f.ty w hgq hkf h1
           obtain ⟨wl, hwl⟩ := toMFields_wf P T O cfg hT hP r sm (j + 1) fs ws' hg hkr h2
           exact ⟨(pat 16 f.id, w0) :: wl, by simp [toWFields?, hw0, hwl]⟩
